@@ -102,7 +102,14 @@ func VerifC11Faults() {
 	verifAssert(err == nil, "NewFS")
 	size := c11Sizes[verifChoice("size", len(c11Sizes))]
 	data := c10Data("f", size)
-	verifAssert(hackpadfs.WriteFullFile(src, "f", data, 0644) == nil, "WriteFullFile f")
+	fname := "f"
+	if verifChoice("nested", 2) == 1 {
+		// a file below a directory (its base name differs from its path)
+		fname = "d/f"
+		verifTag("file", "nested")
+		verifAssert(src.Mkdir("d", 0755) == nil, "Mkdir d")
+	}
+	verifAssert(hackpadfs.WriteFullFile(src, fname, data, 0644) == nil, "WriteFullFile f")
 	source := &c10Source{fs: src, opens: map[string]int{}, faultRead: -1}
 	storeMem, err := mem.NewFS()
 	verifAssert(err == nil, "NewFS")
@@ -130,7 +137,7 @@ func VerifC11Faults() {
 			verifTag("close-failure", "loses-buffered-data")
 		}
 	}
-	f, err := cfs.Open("f")
+	f, err := cfs.Open(fname)
 	fired := store.fired || source.reads > source.faultRead && source.faultRead >= 0
 	source.faultRead, store.faultAt = -1, -1
 	if !fired {
@@ -147,7 +154,7 @@ func VerifC11Faults() {
 	}
 	// fault-free re-opens
 	for i := 0; i < 2; i++ {
-		g, err := cfs.Open("f")
+		g, err := cfs.Open(fname)
 		if err != nil {
 			verifReach("reopen-error")
 			continue
@@ -168,6 +175,22 @@ func VerifC11Concurrent() {
 	size := []int{1, 513}[verifChoice("size", 2)]
 	data := c10Data("f", size)
 	verifAssert(hackpadfs.WriteFullFile(src, "f", data, 0644) == nil, "WriteFullFile f")
+	// either every goroutine opens f, or goroutine i opens its own file with its own contents (fills of
+	// different files run in parallel and must not share anything)
+	different := verifChoice("targets", 2) == 1
+	names := []string{"f", "f", "f"}
+	datas := [][]byte{data, data, data}
+	if different {
+		verifTag("targets", "different-files")
+		names = []string{"f", "g", "h"}
+		for i := 1; i < 3; i++ {
+			datas[i] = make([]byte, size)
+			for k := range datas[i] {
+				datas[i][k] = byte(k*11 + 100*i)
+			}
+			verifAssert(hackpadfs.WriteFullFile(src, names[i], datas[i], 0644) == nil, "WriteFullFile")
+		}
+	}
 	source := &c10Source{fs: src, opens: map[string]int{}, faultRead: -1, watch: "f"}
 	storeMem, err := mem.NewFS()
 	verifAssert(err == nil, "NewFS")
@@ -184,7 +207,7 @@ func VerifC11Concurrent() {
 			defer wg.Done()
 			verifGo(i + 1)
 			defer verifGoDone()
-			f, err := cfs.Open("f")
+			f, err := cfs.Open(names[i])
 			if err != nil {
 				errs[i] = err
 				return
@@ -197,7 +220,17 @@ func VerifC11Concurrent() {
 	verifReach("all-returned")
 	for i := 0; i < n; i++ {
 		verifAssert(errs[i] == nil, "a concurrent first open failed")
-		verifAssert(c10Equal(results[i], data), "a concurrent first open yielded a partial file")
+		verifAssert(c10Equal(results[i], datas[i]), "a concurrent first open yielded a partial or mixed file")
+	}
+	if different {
+		// and what was cached is what later opens serve
+		for i := 0; i < n; i++ {
+			g, err := cfs.Open(names[i])
+			verifAssert(err == nil, "re-open failed")
+			got, rerr := c10ReadAll(g, 600)
+			_ = g.Close()
+			verifAssert(rerr == nil && c10Equal(got, datas[i]), "the cache holds a mixed file after concurrent fills of different files")
+		}
 	}
 	verifAssert(source.maxInCopy <= 1, "more than one copy of the file was in progress at the same time")
 }
